@@ -8,10 +8,10 @@ import sys
 import time
 from typing import Dict, List, Optional
 
-from .build import VERIF
+from .build import VERIF, OUT
 
-EVIDENCE_DIR = os.path.join(VERIF, 'evidence')
-REPLAY_DIR = os.path.join(VERIF, 'replays')
+EVIDENCE_DIR = os.path.join(OUT, 'evidence')
+REPLAY_DIR = os.path.join(OUT, 'replays')
 KNOWN = os.path.join(VERIF, 'known_findings.json')
 
 
